@@ -64,28 +64,33 @@ structure TLV where
 
 def TLV.content (t : TLV) : Bytes := t.elem.drop t.hdr
 
-/-- `String.readASN1(out, &tag, skipHeader)` for any tag. -/
-def readAny (s : Bytes) : Option TLV :=
+/-- long-form length: `lenLen` length octets at the head of `tl`; `none` where the Go code rejects (no or too
+many length octets, truncated, value < 128, leading zero octet, uint32 overflow of header + length). -/
+def longLen (lenLen : Nat) (tl : Bytes) : Option Nat :=
+  if lenLen = 0 ∨ lenLen > 4 ∨ tl.length < lenLen then none
+  else if beNat (tl.take lenLen) < 128 then none
+  else if beNat (tl.take lenLen) >>> ((lenLen - 1) * 8) = 0 then none
+  else if 2 + lenLen + beNat (tl.take lenLen) ≥ 2 ^ 32 then none
+  else some (beNat (tl.take lenLen))
+
+/-- The header part of `String.readASN1`: tag, header length and total element length, from the first
+2 … 6 bytes. `none` where the Go code returns false before touching the content. -/
+def headerOf (s : Bytes) : Option (UInt8 × Nat × Nat) :=
   match s with
   | tag :: lenByte :: tl =>
-    if tag &&& 0x1f == 0x1f then none                     -- high-tag-number form is not supported
-    else if lenByte &&& 0x80 == 0 then
-      let length := lenByte.toNat + 2
-      if s.length < length then none else some ⟨tag, 2, s.take length, s.drop length⟩
+    if tag &&& 0x1f = 0x1f then none                     -- high-tag-number form is not supported
+    else if lenByte &&& 0x80 = 0 then some (tag, 2, lenByte.toNat + 2)
     else
-      let lenLen := (lenByte &&& 0x7f).toNat
-      if lenLen == 0 || lenLen > 4 || s.length < 2 + lenLen then none
-      else
-        let len32 := beNat (tl.take lenLen)
-        if len32 < 128 then none                            -- must use the short form
-        else if len32 >>> ((lenLen - 1) * 8) == 0 then none -- leading zero length octet
-        else
-          let headerLen := 2 + lenLen
-          if headerLen + len32 ≥ 2 ^ 32 then none          -- uint32 overflow check
-          else
-            let length := headerLen + len32
-            if s.length < length then none else some ⟨tag, headerLen, s.take length, s.drop length⟩
+      match longLen (lenByte &&& 0x7f).toNat tl with
+      | none => none
+      | some len32 => some (tag, 2 + (lenByte &&& 0x7f).toNat, 2 + (lenByte &&& 0x7f).toNat + len32)
   | _ => none
+
+/-- `String.readASN1(out, &tag, skipHeader)` for any tag. -/
+def readAny (s : Bytes) : Option TLV :=
+  match headerOf s with
+  | none => none
+  | some (tag, hdr, len) => if s.length < len then none else some ⟨tag, hdr, s.take len, s.drop len⟩
 
 /-- `String.ReadASN1(&out, tag)`: content and rest. -/
 def readASN1 (tag : UInt8) (s : Bytes) : Option (Bytes × Bytes) :=
